@@ -25,6 +25,7 @@ def pinned : Tables :=
     exchangeParse := pinnedExchangeParse
     readWrapsBatchValidation := false
     readWrapsKwargs := false
+    readWrapsEmptyStream := false
     sizeCap := ⟨413, .falcon⟩
     encBomb := ⟨413, .falcon⟩
     encCorrupt := ⟨400, .falcon⟩
